@@ -49,6 +49,11 @@ def _geoms(tier):
              stride=10, only=[HOLE, ZERO, DATA]),
         # beyond 128 grain tables (the size of the grain-table cache), header-located grain directory, tables in reverse order
         dict(kind="hosted", grain=8, W=3, cut=2, at=130 * 512 - 1, total=130 * 512 + 3, alpha="H3", gt_order="desc"),
+        # five grain tables, all present, the first and the last where they usually are and the three in between in reverse order;
+        # the window straddles tables 1 / 2 and tables 2 / 3
+        dict(kind="hosted", grain=8, W=3, cut=1, at=1023, total=5 * 512 - 7, alpha="H3", gt_order="mid", elide=False),
+        dict(kind="hosted", grain=8, W=3, cut=0, at=3 * 512 - 2, total=5 * 512 - 7, alpha="H3", gt_order="mid", elide=False),
+        dict(kind="sesparse", grain=8, W=3, cut=0, at=2 * 4096 - 1, total=5 * 4096 - 7, alpha="SE", gts=64, cbase=0, gt_order="mid", elide=False),
         # grain table entries around 2^31 and near 2^32 (extent files of 1 .. 2 TiB)
         dict(kind="hosted", grain=8, W=3, cut=1, at=0, total=None, alpha="H3", dbase=(1 << 31) - 16, big=True),
         dict(kind="cowd", grain=8, W=3, cut=0, at=0, total=None, alpha="CW", dbase=(1 << 32) - 64, big=True),
@@ -139,11 +144,11 @@ def _build(g, states, slots, capacity, total):
             desc = B.descriptor_text("monolithicSparse", [("RW", capacity, "SPARSE", "verif.vmdk", None)])
         return B.build_hosted(states, slots, g["grain"], 512, capacity, g["at"], total, footer=g.get("footer", False),
                               compressed=g.get("comp", False), descriptor=desc, stride=g.get("stride"),
-                              gt_order=g.get("gt_order", "asc"), data_base=g.get("dbase"))
+                              gt_order=g.get("gt_order", "asc"), data_base=g.get("dbase"), elide_empty_gt=g.get("elide", True))
     if g["kind"] == "cowd":
         return B.build_cowd(states, slots, g["grain"], capacity, g["at"], total, data_base=g.get("dbase"))
     return B.build_sesparse(states, slots, g["grain"], g["gts"], capacity, g["at"], total, gt_order=g.get("gt_order", "asc"),
-                            cluster_base=g["cbase"])
+                            cluster_base=g["cbase"], elide_empty_gt=g.get("elide", True))
 
 
 def _requests(g, size, buf, total):
